@@ -98,7 +98,9 @@ pub fn worker_main(engine: &dyn CaseEngine, args: &Args) {
     let mut rep = Report::new(engine.property(), "");
     let mut since = 0;
     let mut last_flush = Instant::now();
-    for case in (0..n).filter(|c| c % of == shard && *c >= from) {
+    // cases are dealt round-robin with a rotation per round, so that engines whose heavy cases recur with a
+    // small period (every 4th case, ...) do not load a few shards only
+    for case in (0..n).filter(|c| (c + c / of) % of == shard && *c >= from) {
         emit(&format!("S {case}"));
         let progress = |s: &str| emit(&format!("P {s}"));
         if let Err(p) = crate::panicmon::catch(|| engine.run_case(args, case, &mut rep, &progress)) {
